@@ -14,14 +14,25 @@ State: the private list `__terms` plus the `ordering` attribute. Mirrored as wri
 * list index conventions: `insert` clamps, `[i]`/`del [i]` raise `IndexError` out of range,
   slices clamp;
 * a value that is not a `Term` fails `__validate_terms` (`FormulaInvalidError`) before anything
-  is changed.
+  is changed;
+* SLICE ASSIGNMENT never succeeds: `__setitem__` validates `[value]`, so a list of terms is rejected
+  (`FormulaInvalidError`) and a single `Term` passes validation only to fail in `list.__setitem__`
+  (`TypeError`: a `Term` is not iterable); the terms are unchanged either way;
+* `f[a:b:c]` builds a NEW `SimpleFormula` with the same ordering from the selected terms (so it is
+  re-ordered); `del f[a:b:c]` removes the selected positions and does not re-order;
+* `clear`, `remove`, `+=`, `index`, `count`, `in`, `reversed` are the `collections.abc` mixins
+  (`remove`/`index`/`count`/`in` compare with `Term.__eq__`, i.e. the sorted factor expressions);
+* `==` against a list or another `SimpleFormula` is list equality of the terms; against anything
+  else it is `NotImplemented`, i.e. `False`;
+* the constructor refuses (`FormulaInvalidError`) a string or non-iterable `root`, any `**structure`,
+  and any element that is not a `Term`; no `root` means no terms.
 -/
 namespace FormulaicVerif.Model.SFm
 
 inductive Ordering | none | degree | sort
 deriving DecidableEq, Repr, Inhabited
 
-inductive Err | indexError | invalid
+inductive Err | indexError | invalid | typeError | valueError
 deriving DecidableEq, Repr, Inhabited
 
 /-- insert `x` into a degree-sorted list in front of the first element that is not smaller:
@@ -66,6 +77,27 @@ def reorder : Ordering → List Term → List Term
 
 /-- `SimpleFormula(terms, _ordering=o)` -/
 def init (o : Ordering) (l : List Term) : List Term := reorder o l
+
+/-- what is handed to the constructor as `root` -/
+inductive CtorArg where
+  | missing                              -- no `root` at all: `()`
+  | notTerms                             -- a `str` or something that is not iterable
+  | terms (ts : List (Option Term))      -- an iterable; `none` = an element that is not a `Term`
+
+/-- the terms an accepted argument supplies -/
+def CtorArg.given : CtorArg → List Term
+  | .terms ts => ts.filterMap id
+  | _ => []
+
+/-- `SimpleFormula(root, _ordering=o, **structure)`: every refusal is `FormulaInvalidError` -/
+def construct (o : Ordering) (arg : CtorArg) (hasStructure : Bool) : Except Err (List Term) :=
+  match arg with
+  | .notTerms => .error .invalid
+  | .missing => if hasStructure then .error .invalid else .ok (init o [])
+  | .terms ts =>
+    if hasStructure then .error .invalid
+    else if ts.any Option.isNone then .error .invalid
+    else .ok (init o (ts.filterMap id))
 
 /-- a valid index for `seq[i]`, `seq[i] = x`, `del seq[i]`; `none` = `IndexError` -/
 def normIdx (i : Int) (n : Nat) : Option Nat :=
@@ -143,6 +175,98 @@ def reverseLoop (o : Ordering) (n : Nat) : List Nat → List Term → List Term 
     | (l', none) => reverseLoop o n is l'
     | (l', some e) => (l', some e)
 
+/-! ### slices -/
+
+/-- `PySlice_AdjustIndices` for a negative step: a bound clamped into `[-1, n-1]` -/
+def adjNeg (i : Int) (n : Nat) : Int :=
+  let i' := if i < 0 then i + n else i
+  if i' < 0 then -1 else if i' ≥ n then (n : Int) - 1 else i'
+
+/-- the positions `range(*slice(a, b, c).indices(n))`, in that order; `c ≠ 0` -/
+def sliceIndices (a b : Option Int) (c : Int) (n : Nat) : List Nat :=
+  if 0 < c then
+    let start := match a with | some i => clampIdx i n | none => 0
+    let stop := match b with | some i => clampIdx i n | none => n
+    let step := c.toNat
+    List.range' start ((stop - start + step - 1) / step) step
+  else
+    let start : Int := match a with | some i => adjNeg i n | none => (n : Int) - 1
+    let stop : Int := match b with | some i => adjNeg i n | none => -1
+    let step := (-c).toNat
+    let count := ((start - stop).toNat + step - 1) / step
+    (List.range count).map (fun j => (start - (j * step : Nat)).toNat)
+
+/-- remove the given positions -/
+def removeIdxs {α} (l : List α) (idxs : List Nat) : List α :=
+  (l.zipIdx.filter (fun xi => !idxs.contains xi.2)).map (·.1)
+
+/-- `del f[a:b:c]` (`c = 0`: `ValueError`) -/
+def delSliceX (l : List Term) (a b : Option Int) (c : Int) : Except Err (List Term) :=
+  if c == 0 then .error .valueError else .ok (removeIdxs l (sliceIndices a b c l.length))
+
+/-- `list(f[a:b:c])`: a new formula with the same ordering -/
+def getSlice (o : Ordering) (l : List Term) (a b : Option Int) (c : Int) : Except Err (List Term) :=
+  if c == 0 then .error .valueError
+  else .ok (reorder o ((sliceIndices a b c l.length).filterMap (fun i => l[i]?)))
+
+/-- the value of a slice assignment: a list (of would-be terms) or a single term -/
+inductive SliceVal where
+  | list (ts : List (Option Term))
+  | term (t : Term)
+
+/-- `f[a:b:c] = value`: always raises, nothing changes -/
+def setSlice (_l : List Term) (_a _b : Option Int) (_c : Int) : SliceVal → Except Err (List Term)
+  | .list _ => .error .invalid
+  | .term _ => .error .typeError
+
+/-! ### `Term.__eq__` and the searching mixins -/
+
+/-- `a == b` for terms: same sorted factor expressions -/
+def termEq (a b : Term) : Bool := Term.key a == Term.key b
+
+/-- `f.index(t)` (`none` when the value is not a `Term` equal to an element: `ValueError`) -/
+def indexOf (l : List Term) (t : Option Term) : Option Nat :=
+  match t with
+  | none => none
+  | some t => l.findIdx? (fun x => termEq x t)
+
+/-- `f.remove(t)`: `del f[f.index(t)]` -/
+def remove (l : List Term) (t : Option Term) : Except Err (List Term) :=
+  match indexOf l t with
+  | some n => .ok (l.eraseIdx n)
+  | none => .error .valueError
+
+/-- `f.count(t)` -/
+def count (l : List Term) (t : Option Term) : Nat :=
+  match t with
+  | none => 0
+  | some t => (l.filter (fun x => termEq x t)).length
+
+/-- the `while True: self.pop()` loop of `MutableSequence.clear` -/
+def clearLoop : Nat → List Term → Option (List Term)
+  | 0, _ => none
+  | fuel + 1, l =>
+    match getItem l (-1) with
+    | .error _ => some l
+    | .ok _ =>
+      match delItem l (-1) with
+      | .ok l' => clearLoop fuel l'
+      | .error _ => some l
+
+/-- `f == other` for a list of terms / another formula -/
+def eqTerms : List Term → List Term → Bool
+  | [], [] => true
+  | x :: xs, y :: ys => termEq x y && eqTerms xs ys
+  | _, _ => false
+
+/-- what a read-only operation returns -/
+inductive Res where
+  | none
+  | terms (ts : List Term)
+  | nat (n : Nat)
+  | bool (b : Bool)
+deriving DecidableEq, Repr, Inhabited
+
 inductive Op where
   | insert (i : Int) (t : Option Term)
   | set (i : Int) (t : Option Term)
@@ -152,6 +276,18 @@ inductive Op where
   | extend (ts : List (Option Term))
   | pop (i : Int)
   | reverse
+  | iadd (ts : List (Option Term))
+  | setSlice (a b : Option Int) (c : Int) (v : SliceVal)
+  | delSliceX (a b : Option Int) (c : Int)
+  | clear
+  | remove (t : Option Term)
+  | getSlice (a b : Option Int) (c : Int)
+  | index (t : Option Term)
+  | count (t : Option Term)
+  | contains (t : Option Term)
+  | reversed
+  | eq (other : List Term)
+  | eqForeign                            -- `f == x` for `x` neither a list nor a formula
 
 def ofExcept (l : List Term) : Except Err (List Term) → List Term × Option Err
   | .ok l' => (l', none)
@@ -170,6 +306,38 @@ def step (o : Ordering) (l : List Term) : Op → List Term × Option Err
     | .ok _ => ofExcept l (delItem l i)
     | .error e => (l, some e)
   | .reverse => reverseLoop o l.length (List.range (l.length / 2)) l
+  | .iadd ts => extend o l ts
+  | .setSlice a b c v => ofExcept l (setSlice l a b c v)
+  | .delSliceX a b c => ofExcept l (delSliceX l a b c)
+  | .clear =>
+    match clearLoop (l.length + 1) l with
+    | some l' => (l', none)
+    | none => (l, none)   -- unreachable (`Props.C19.formula_clear_remove`)
+  | .remove t => ofExcept l (remove l t)
+  | .getSlice _ _ c => (l, if c == 0 then some .valueError else none)
+  | .index t => (l, if (indexOf l t).isNone then some .valueError else none)
+  | .count _ => (l, none)
+  | .contains _ => (l, none)
+  | .reversed => (l, none)
+  | .eq _ => (l, none)
+  | .eqForeign => (l, none)
+
+/-- the value a read-only operation returns (`Res.none` for the mutating ones and for failures) -/
+def result (o : Ordering) (l : List Term) : Op → Res
+  | .getSlice a b c =>
+    match getSlice o l a b c with
+    | .ok ts => .terms ts
+    | .error _ => .none
+  | .index t =>
+    match indexOf l t with
+    | some n => .nat n
+    | none => .none
+  | .count t => .nat (count l t)
+  | .contains t => .bool (decide (0 < count l t))
+  | .reversed => .terms l.reverse
+  | .eq other => .bool (eqTerms l other)
+  | .eqForeign => .bool false            -- `NotImplemented` from both sides: identity comparison
+  | _ => .none
 
 /-- a whole sequence of operations (exceptions caught by the caller) -/
 def run (o : Ordering) (l : List Term) : List Op → List Term
